@@ -8,6 +8,7 @@ package c17
 
 import (
 	"fmt"
+	"os"
 	"runtime"
 	"sort"
 	"strconv"
@@ -35,10 +36,44 @@ type scenario struct {
 	// canon reduces the observation to what must equal some serial execution.
 	canon func(o *obs) string
 	// negative: the scenario is intentionally broken; some schedule MUST fail check.
-	negative bool
+	negative   bool
 	raceQuick0 bool // quick tier: the race pass runs the non-preemptive schedules only (4-thread scenarios: 1 preemption costs minutes at race-build speed)
 	// bounds[tier]: preemption bound (-1 = unbounded)
 	quick, thorough int
+	raceThorough    int // thorough tier: cap of the race pass's preemption bound (0 = the default 2)
+	// shards, shardsThorough: cases the schedule tree is dealt to in the quick / thorough tier (0 = 16). A case costs a
+	// process (a second of start-up in the race build): small scenarios use 1-4.
+	shards, shardsThorough int
+}
+
+func (sc *scenario) nShards(tier string) int {
+	n := sc.shards
+	if tier == engine.Thorough {
+		n = sc.shardsThorough
+	}
+	if 0 < n {
+		return n
+	}
+	return nShards
+}
+
+// raceBound: the race pass runs every schedule with <= 1 (quick) / <= 2 (thorough) preemptions, never more than the
+// scenario's own bound.
+func (sc *scenario) raceBound(tier string) int {
+	b := 1
+	if tier == engine.Thorough {
+		b = 2
+		if 0 < sc.raceThorough {
+			b = sc.raceThorough
+		}
+	}
+	if 0 <= bound(sc, tier) && bound(sc, tier) < b {
+		b = bound(sc, tier)
+	}
+	if sc.raceQuick0 && tier != engine.Thorough {
+		b = 0
+	}
+	return b
 }
 
 type obs struct {
@@ -51,6 +86,14 @@ type obs struct {
 
 // gfCounter gives every execution its own generic function (slip keeps functions in process-global tables).
 var gfCounter int
+
+// freshNames: "@X" in a scenario source becomes the name c17-x<N>, N unique per execution in this process: generic
+// functions @G, functions @F @H, packages @P @Q, classes @C @K, flavors @L, structure types @T, global variables @V @W,
+// symbol names @S.
+var freshNames = []string{"G", "F", "H", "P", "Q", "C", "K", "L", "T", "V", "W", "S"}
+
+// cleanupForms are evaluated (outside the scheduler) before the next execution of this process starts.
+var cleanupForms []string
 
 type env struct {
 	src   string
@@ -354,6 +397,49 @@ var scenarios = []*scenario{
     (channel-pop d)
     (list (send inst :x) (send inst :y))))`,
 		check: all(expectVal("(1 2)"), mutexFree), canon: rawVal},
+	// (set-synchronized inst t) evaluated AGAIN, by both routines, while the other one uses the already synchronized
+	// instance: slot a is written by the routine only, slot b by both under the-mutex. Every serial execution gives
+	// (t 1 2); the instance must keep ONE mutex (a second one makes Lock and Unlock of one slot access hit different
+	// mutexes: fatal "unlock of unlocked mutex", or two holders at once).
+	{name: "c4-set-synchronized-again-defclass-instance", group: "c", yield: true, quick: 3, thorough: 4,
+		src: `(progn
+  (defclass @C () ((a :initform 0) (b :initform 0)))
+  (let ((inst (make-instance '@C)) (d (make-channel 2)))
+    (set-synchronized inst t)
+    (run (progn (set-synchronized inst t) (setf (slot-value inst 'a) 1)
+                (with-mutex-lock the-mutex (setf (slot-value inst 'b) (+ (slot-value inst 'b) 1)))
+                (channel-push d t)))
+    (with-mutex-lock the-mutex (setf (slot-value inst 'b) (+ (slot-value inst 'b) 1)))
+    (set-synchronized inst t)
+    (channel-pop d)
+    (list (synchronizedp inst) (slot-value inst 'a) (slot-value inst 'b))))`,
+		check: all(expectVal("(t 1 2)"), mutexFree), canon: rawVal},
+	{name: "c5-set-synchronized-again-flavor-instance", group: "c", yield: true, quick: 3, thorough: 4,
+		src: `(progn
+  (defflavor @L ((x 0) (y 0)) () :gettable-instance-variables :settable-instance-variables)
+  (let ((inst (make-instance '@L)) (d (make-channel 2)))
+    (set-synchronized inst t)
+    (run (progn (set-synchronized inst t) (send inst :set-x 1)
+                (with-mutex-lock the-mutex (send inst :set-y (+ (send inst :y) 1)))
+                (channel-push d t)))
+    (with-mutex-lock the-mutex (send inst :set-y (+ (send inst :y) 1)))
+    (set-synchronized inst t)
+    (channel-pop d)
+    (list (synchronizedp inst) (send inst :x) (send inst :y))))`,
+		check: all(expectVal("(t 1 2)"), mutexFree), canon: rawVal},
+	{name: "c6-set-synchronized-again-structure-object", group: "c", yield: true, quick: 3, thorough: 4,
+		src: `(progn
+  (defstruct @T (a 0) (b 0))
+  (let ((inst (make-@T)) (d (make-channel 2)))
+    (set-synchronized inst t)
+    (run (progn (set-synchronized inst t) (setf (@T-a inst) 1)
+                (with-mutex-lock the-mutex (setf (@T-b inst) (+ (@T-b inst) 1)))
+                (channel-push d t)))
+    (with-mutex-lock the-mutex (setf (@T-b inst) (+ (@T-b inst) 1)))
+    (set-synchronized inst t)
+    (channel-pop d)
+    (list (synchronizedp inst) (@T-a inst) (@T-b inst))))`,
+		check: all(expectVal("(t 1 2)"), mutexFree), canon: rawVal},
 	// ---- (d) the interpreter's own tables
 	{name: "d1-concurrent-defvar", group: "d", yield: true, quick: 3, thorough: 5,
 		src: `(let ((d (make-channel 2)))
@@ -525,16 +611,52 @@ func (sc *scenario) build() *sched.Scenario {
 			}
 			_, _ = lisp.EvalIn(scope, "(undefflavor 'c17-cell)")
 			if sc.yield {
-				scope.InterruptCheck = vsched.Yield
+				scope.InterruptCheck = yieldPoint
 			}
+			// process-global interpreter state a previous execution may have left behind
+			for _, f := range cleanupForms {
+				_, _ = lisp.EvalIn(scope, f)
+			}
+			cleanupForms = cleanupForms[:0]
+			_, _ = lisp.EvalIn(scope, "(setq *gensym-counter* 100)")
+			_, _ = lisp.EvalIn(scope, "(setq *print-base* 10)")
+			_, _ = lisp.EvalIn(scope, "(setq *print-radix* nil)")
 			gfCounter++
-			return &env{scope: scope, src: strings.ReplaceAll(strings.ReplaceAll(sc.src, "@G", fmt.Sprintf("c17-g%d", gfCounter)), "@F", fmt.Sprintf("c17-f%d", gfCounter))}
+			src := sc.src
+			for _, k := range freshNames {
+				src = strings.ReplaceAll(src, "@"+k, fmt.Sprintf("c17-%s%d", strings.ToLower(k), gfCounter))
+			}
+			if strings.Contains(sc.src, "@P") || strings.Contains(sc.src, "@Q") {
+				cleanupForms = append(cleanupForms,
+					fmt.Sprintf("(ignore-errors (delete-package 'c17-q%d))", gfCounter),
+					fmt.Sprintf("(ignore-errors (delete-package 'c17-p%d))", gfCounter))
+			}
+			return &env{scope: scope, src: src}
 		},
 		Main: func(e any) {
 			en := e.(*env)
 			en.val, en.err = lisp.EvalIn(en.scope, en.src)
 		},
 	}
+}
+
+// yieldPoint is the Lisp-level scheduling point (Scope.InterruptCheck, called at the top of every Function.Eval). When
+// the scheduler gives an execution up (deadlock, step horizon) it releases every parked thread with a panic. The
+// interpreter turns a foreign panic into a Lisp condition at every call level (normalAfter -> ErrorNew -> make-instance
+// -> generic call -> Lock -> the same panic again -> ...), which never ends: each deadlocked execution then costs the
+// scheduler's whole grace period and leaves goroutines behind that recurse until the stack limit. The first call
+// boundary reached after the release therefore ends the goroutine with runtime.Goexit: deferred unlocks still run,
+// recover() in the interpreter's handlers sees nothing, the thread is gone at once.
+func yieldPoint() {
+	defer func() {
+		if r := recover(); r != nil {
+			if fmt.Sprintf("%T", r) == "vsched.abortSentinel" {
+				runtime.Goexit()
+			}
+			panic(r)
+		}
+	}()
+	vsched.Yield()
 }
 
 func observe(x *sched.Execution) *obs {
@@ -551,8 +673,12 @@ var (
 	serialCache = map[string]map[string]bool{}
 )
 
-// serialOutcomes: the observable outcomes of all non-preemptive schedules (each routine runs until
-// it blocks or finishes) of the scenario on the real interpreter = "some sequential execution".
+// serialOutcomes: the observable outcomes of all SEQUENTIAL schedules of the scenario on the real interpreter = "some
+// sequential execution": a routine runs until it blocks or finishes (no preemption), and where a routine starts another
+// one either the starter goes on or the new routine runs first (the only switch away from a routine that could go on
+// is to a routine that has just been started, at the starter's first scheduling point after the start). Before round 8
+// only the first half was there (every non-preemptive schedule), which is every serial order for scenarios whose outcome
+// does not depend on who goes first, but not for "define X here, use X there" scenarios.
 func serialOutcomes(sc *scenario) map[string]bool {
 	serialMu.Lock()
 	defer serialMu.Unlock()
@@ -560,14 +686,62 @@ func serialOutcomes(sc *scenario) map[string]bool {
 		return s
 	}
 	set := map[string]bool{}
-	sched.Explore(sc.build(), 0, 0, 1, func(x *sched.Execution) bool {
+	n := 0
+	var rec func(prefix []int)
+	rec = func(prefix []int) {
+		x, allowed := runSerial(sc, prefix)
+		n++
 		if !x.Deadlock && !x.Livelock && !x.Stuck {
 			set[sc.canon(observe(x))] = true
 		}
-		return true
-	})
+		if 2000 < n {
+			return
+		}
+		for i := len(prefix); i < len(x.Choices); i++ {
+			for _, alt := range allowed[i] {
+				rec(append(append(make([]int, 0, i+1), x.Choices[:i]...), alt))
+			}
+		}
+	}
+	rec(nil)
 	serialCache[sc.name] = set
 	return set
+}
+
+// runSerial executes one schedule under the sequential policy and returns, per scheduling point, the alternative
+// choices the policy allows there.
+func runSerial(sc *scenario, prefix []int) (x *sched.Execution, allowed [][]int) {
+	x = &sched.Execution{}
+	b := sc.build()
+	s := vsched.New()
+	s.MaxSteps = 20000
+	offered := map[int]bool{}
+	s.Choose = func(enabled []vsched.Transition, prevEnabled bool) int {
+		i := len(x.Choices)
+		var alts []int
+		for k := 1; k < len(enabled); k++ {
+			if !prevEnabled || (enabled[k].Op() == vsched.OpStart && !offered[enabled[k].T.ID]) {
+				alts = append(alts, k)
+			}
+		}
+		for _, tr := range enabled {
+			if tr.Op() == vsched.OpStart {
+				offered[tr.T.ID] = true
+			}
+		}
+		c := 0
+		if i < len(prefix) && prefix[i] < len(enabled) {
+			c = prefix[i]
+		}
+		x.Choices = append(x.Choices, c)
+		allowed = append(allowed, alts)
+		return c
+	}
+	env := b.Setup()
+	x.Env = env
+	s.Run(func() { b.Main(env) })
+	x.Deadlock, x.Livelock, x.Stuck = s.Deadlock, s.Livelock, s.Stuck
+	return
 }
 
 // verdicts applies every oracle to one execution.
@@ -628,25 +802,14 @@ func bound(sc *scenario, tier string) int {
 
 func enumerate(tier string, emit func(string)) {
 	for _, sc := range scenarios {
-		for sh := 0; sh < nShards; sh++ {
-			emit(fmt.Sprintf("explore|%s|%d|%d|%d", sc.name, bound(sc, tier), sh, nShards))
+		for sh := 0; sh < sc.nShards(tier); sh++ {
+			emit(fmt.Sprintf("explore|%s|%d|%d|%d", sc.name, bound(sc, tier), sh, sc.nShards(tier)))
 		}
 	}
 	// race-detector pass (second binary): every schedule with <= 1 (quick) / <= 2 (thorough) preemptions
-	rb, rs := 1, 16
-	if tier == engine.Thorough {
-		rb, rs = 2, 16
-	}
 	for _, sc := range scenarios {
-		b := rb
-		if 0 <= bound(sc, tier) && bound(sc, tier) < b {
-			b = bound(sc, tier)
-		}
-		if sc.raceQuick0 && tier != engine.Thorough {
-			b = 0
-		}
-		for sh := 0; sh < rs; sh++ {
-			emit(fmt.Sprintf("race|%s|%d|%d|%d", sc.name, b, sh, rs))
+		for sh := 0; sh < sc.nShards(tier); sh++ {
+			emit(fmt.Sprintf("race|%s|%d|%d|%d", sc.name, sc.raceBound(tier), sh, sc.nShards(tier)))
 		}
 	}
 }
@@ -663,6 +826,14 @@ func execCase(spec string) (res engine.Result) {
 	if sc == nil {
 		res.Fail("harness:bad-spec", spec)
 		return
+	}
+	if !vsched.RaceBuild && !isInner() {
+		// one child process per case: a fatal Go error inside an execution is a failure of the scenario (isolate.go)
+		return execIsolated(sc, spec)
+	}
+	if jf := os.Getenv(locateEnv); jf != "" && p[0] == "explore" {
+		b, _ := strconv.Atoi(p[2])
+		return locateSearch(sc, b, jf)
 	}
 	serial := serialOutcomes(sc)
 	switch p[0] {
@@ -746,26 +917,15 @@ func execCase(spec string) (res engine.Result) {
 // about generic function dispatch under concurrency, for the concurrent half of C10.
 func GenericScenarioSpecs(tier string) []string {
 	var specs []string
-	rb, rs := 1, 16
-	if tier == engine.Thorough {
-		rb, rs = 2, 16
-	}
 	for _, sc := range scenarios {
 		if !strings.HasPrefix(sc.name, "d3-") && !strings.HasPrefix(sc.name, "d4-") && !strings.HasPrefix(sc.name, "d5-") && !strings.HasPrefix(sc.name, "d6-") {
 			continue
 		}
-		for sh := 0; sh < nShards; sh++ {
-			specs = append(specs, fmt.Sprintf("explore|%s|%d|%d|%d", sc.name, bound(sc, tier), sh, nShards))
+		for sh := 0; sh < sc.nShards(tier); sh++ {
+			specs = append(specs, fmt.Sprintf("explore|%s|%d|%d|%d", sc.name, bound(sc, tier), sh, sc.nShards(tier)))
 		}
-		b := rb
-		if 0 <= bound(sc, tier) && bound(sc, tier) < b {
-			b = bound(sc, tier)
-		}
-		if sc.raceQuick0 && tier != engine.Thorough {
-			b = 0
-		}
-		for sh := 0; sh < rs; sh++ {
-			specs = append(specs, fmt.Sprintf("race|%s|%d|%d|%d", sc.name, b, sh, rs))
+		for sh := 0; sh < sc.nShards(tier); sh++ {
+			specs = append(specs, fmt.Sprintf("race|%s|%d|%d|%d", sc.name, sc.raceBound(tier), sh, sc.nShards(tier)))
 		}
 	}
 	return specs
@@ -781,21 +941,25 @@ func init() {
 	engine.Register(&engine.Prop{
 		ID:    "C17",
 		Level: "model_checking",
-		Rule: "stateless model checking of the implementation: for every scenario (closed Lisp program of 2-3 routines over channels, " +
-			"mutexes, synchronised objects, interpreter tables) EVERY schedule of the real goroutines up to the scenario's preemption " +
+		Rule: "stateless model checking of the implementation: for every scenario (closed Lisp program of 2-4 routines over channels, " +
+			"mutexes, synchronised objects, the interpreter's own tables - packages, function / class / flavor / generic function tables, " +
+			"name generator, printer state -) EVERY schedule of the real goroutines up to the scenario's preemption " +
 			"bound is executed under a cooperative scheduler whose scheduling points are generated from /repo's working tree " +
-			"(every Lock, channel send/receive/close/range, go statement; plus every Lisp call boundary where marked); each execution " +
-			"is checked (exactly-once, per-producer FIFO, mutual exclusion, mutex free, no lost update, no deadlock, outcome equals " +
-			"the outcome of some non-preemptive execution); a case is one shard of a scenario's schedule tree and is non-trivial " +
-			"when it contains executions with at least one preemption",
+			"(every Lock, channel send/receive/close/range/select, go statement; plus every Lisp call boundary where marked); each execution " +
+			"is checked (exactly-once, per-producer FIFO, mutual exclusion, mutex free, no lost update, no deadlock, no fatal Go error, the " +
+			"scenario's own statement of what every serial execution gives, and outcome equals the outcome of some sequential execution " +
+			"of the same program on the real interpreter); a second pass runs every schedule with <= 1 (quick) / <= 2 (thorough) preemptions " +
+			"under the race detector; a case is one shard of a scenario's schedule tree and is non-trivial when it contains executions " +
+			"with at least one preemption",
 		Assumptions: []string{
 			"sequentially consistent interleaving semantics at the granularity of synchronisation operations (and Lisp call boundaries); weak-memory effects and races on unsynchronised data are the race-detector pass's business",
-			"select, time channels, sleeps are outside the scenario alphabet",
-			"the negative control (unsynchronised counter) must be reported on every run, else the run is a harness error",
+			"sequential execution = no routine is switched away from while it can go on, except that a routine that starts another one may let the new routine run first",
+			"time channels and sleeps are outside the scenario alphabet; slip has no gentemp",
+			"the negative controls (unsynchronised counter; synchronization switched off and on while in use -> fatal Go error) must be reported on every run, else the run is a harness error",
 		},
 		Enumerate: enumerate,
 		Exec:      execCase,
-		Required:  []string{"executions-preempted", "negative-control-detected", "group-a", "group-b", "group-c", "group-d", "branching-points", "race-executions", "race-negative-control-detected"},
+		Required:  []string{"executions-preempted", "negative-control-detected", "negative-control-fatal-detected", "group-a", "group-b", "group-c", "group-d", "group-p", "branching-points", "race-executions", "race-negative-control-detected", "race-group-a", "race-group-b", "race-group-c", "race-group-d", "race-group-p"},
 		Bound: func(tier string) string {
 			var s []string
 			for _, sc := range scenarios {
